@@ -201,6 +201,14 @@ func (e *lifeEnv) exec(line string, salt int) (res string) {
 		e.resetNextFromLog(res)
 	}()
 	switch t[0] {
+	case "lf-end", "lf-ev", "lf-query", "lf-save":
+	default:
+		// a held re-request is answered before anything else happens to the stream (its overlap with a
+		// rebalance is finding F9a, not part of these histories)
+		e.cl.releaseHolds()
+		time.Sleep(2 * time.Millisecond)
+	}
+	switch t[0] {
 	case "lf-member":
 		lo, _ := strconv.Atoi(t[1])
 		hi, _ := strconv.Atoi(t[2])
@@ -289,6 +297,15 @@ func (e *lifeEnv) exec(line string, salt int) (res string) {
 		}
 		var err error
 		switch t[2] {
+		case "transient-held":
+			// the re-request of this vBucket stays in flight (the node answers late): hold the fake's OpenStream
+			err = transientErrs[salt%len(transientErrs)]
+			e.cl.mu.Lock()
+			if e.cl.holdOpen == nil {
+				e.cl.holdOpen = map[uint16]chan struct{}{}
+			}
+			e.cl.holdOpen[vb] = make(chan struct{})
+			e.cl.mu.Unlock()
 		case "transient":
 			err = transientErrs[salt%len(transientErrs)]
 		case "closed":
@@ -458,6 +475,8 @@ func genLife(r *Rng, kind string) lifeCase {
 	inWindow := false
 	windowTicks := 0
 	closed := false
+	noShutdown := false // a re-armed Rebalance timer may still be pending: a shutdown would let it fire into the closed stream
+	ended := map[int]bool{}
 	curLo, curHi := lo, hi
 	steps := 4 + r.Intn(8)
 	for i := 0; i < steps && !closed; i++ {
@@ -483,6 +502,7 @@ func genLife(r *Rng, kind string) lifeCase {
 					tag["F5-first-timer-nil"] = true
 				} else {
 					chain++
+					noShutdown = true
 					tag["reassigned"] = true
 				}
 			case r.Chance(15):
@@ -505,6 +525,7 @@ func genLife(r *Rng, kind string) lifeCase {
 					inWindow = false
 					cycles++
 					chain = 0
+					ended = map[int]bool{} // a new session: every assigned vBucket streams again
 				}
 			}
 		case x < 80:
@@ -518,10 +539,16 @@ func genLife(r *Rng, kind string) lifeCase {
 			add("lf-save")
 		case x < 94 && (kind == "end" || r.Chance(30)):
 			vb := curLo + r.Intn(curHi-curLo+1)
-			c := r.Pick("transient", "transient", "closed", "final", "clean")
+			c := r.Pick("transient", "transient-held", "closed", "final", "clean")
+			if ended[vb] {
+				break // the server ends a stream for good at most once per session
+			}
+			if !strings.HasPrefix(c, "transient") && !inWindow {
+				ended[vb] = true
+			}
 			add(fmt.Sprintf("lf-end %d %s", vb, c))
 			tag["end."+c] = true
-		case kind == "shut" && x < 97 || x >= 98:
+		case (kind == "shut" && x < 97 || x >= 98) && !noShutdown:
 			// shutdown outside the rebalance window is clean; inside it is finding F4
 			if inWindow {
 				tag["F4-close-in-window"] = true
@@ -538,11 +565,29 @@ func genLife(r *Rng, kind string) lifeCase {
 	add(fmt.Sprintf("lf-tick %d", 3*lifeGrid))
 	add("lf-query")
 	if kind == "end" && !closed {
-		// end every assigned stream for good: the client must stop exactly at the last one
+		// end every assigned stream for good: the client must stop exactly at the last one - also when one
+		// vBucket is in the middle of being re-requested (transient end, re-request still in flight)
+		held := -1
+		if r.Chance(50) && curHi > curLo {
+			held = curLo + r.Intn(curHi-curLo+1)
+			if ended[held] {
+				held = -1
+			} else {
+				add(fmt.Sprintf("lf-end %d transient-held", held))
+				tag["end.held-during-final"] = true
+			}
+		}
 		for vb := curLo; vb <= curHi; vb++ {
+			if vb == held || ended[vb] {
+				continue
+			}
 			add(fmt.Sprintf("lf-end %d %s", vb, r.Pick("final", "clean", "closed")))
 		}
 		add("lf-query")
+		if held >= 0 {
+			add(fmt.Sprintf("lf-end %d %s", held, r.Pick("final", "clean")))
+			add("lf-query")
+		}
 		tag["all-ended"] = true
 	}
 	for t := range tag {
@@ -564,6 +609,7 @@ func runLifeCase(lc lifeCase, salt int) []string {
 	delay, _ := strconv.Atoi(f[1])
 	e := newLifeEnv(delay, f[2] == "1", f[3] == "1")
 	e.start = time.Now()
+	defer e.cl.releaseHolds()
 	reals := []string{"ok"}
 	dead := false
 	stopped := false
